@@ -7,44 +7,101 @@
      snew k n / sdel k n   (global) a SimpleString with an n-byte buffer is created / destroyed
      foreign / clearcache / clearall   (bare) release of a foreign pointer, clearCache, clearAll
      del / gdel            destroy the bare cache (after it was cleared) / the global cache (buffers may be in use)
+     pnew k n              (no cache yet) the k-th string that predates the cache is created with an n-byte buffer
+     gnew 1                the global cache is constructed and the calls up to gdel run inside a test whose output string
+                           predates the cache: the unknown-release warning is appended to that string
+     pdel k / pcat k m / pset k n   (global) that string is destroyed / m characters are appended / an n-byte text is
+                           assigned: its buffer (unknown to the cache as long as it is the original one) is released
+   One of these calls is several calls on the cache: the call step only records the call and loads `pend' with the
+   calls it consists of (a = request, d = release of a known buffer, u = release of an unknown one - the first of
+   which is WarnBegin, the append to the output string [o, U: request + unknown release while the warning is printed],
+   WarnEnd); the following steps execute them.  How many temporary strings the printing itself uses is left out.
    Buffers are named by the index of the alloc call that produced them, so that a behaviour means the
    same on any implementation of the cache.  Alloc follows AllocImpl (the internal choice does not
    change which call sequences exist).  A behaviour may contain several life cycles. *)
 EXTENDS StrCache, Json
 CONSTANTS D,            \* number of calls per behaviour
           ForeignSizes, \* sizes passed with releases of foreign pointers
-          Kinds         \* kinds of cache object to construct: subset of {"bare", "global"}
-VARIABLES h, done, hid, na, sown
-gvars == <<vars, h, done, hid, na, sown>>
+          Kinds,        \* kinds of cache object to construct: subset of {"bare", "global"}
+          MaxPre,       \* number of strings that predate the cache
+          PreSizes,     \* their buffer sizes / the sizes assigned / the numbers of characters appended
+          FixModes,     \* subset of {0, 1}: 1 = a current test whose output string predates the cache
+          OutN          \* size of the buffer the output string gets when the warning is appended to it
+VARIABLES h, done, hid, na, sown,
+          np, pre,      \* strings that predate the cache: number created, [k -> [sz, mem]] (mem = 0: still the original buffer)
+          fix,          \* the calls of this global cache run inside a test with an older output string
+          pend, tmp,    \* calls on the cache still to be made for the current script call; buffer of its temporary
+          hidden, nh    \* buffers that no alloc / snew call produced (not addressable by dealloc / sdel); how many so far
+gvars == <<vars, h, done, hid, na, sown, np, pre, fix, pend, tmp, hidden, nh>>
+PreSame == UNCHANGED <<np, pre, fix, pend, tmp, hidden, nh>>
 
 Call(op, a, n) == h' = Append(h, [op |-> op, a |-> a, n |-> n])
 Room == Cardinality(DOMAIN req) < MaxLive
 Named == hid' = [m \in DOMAIN req' |-> IF m \in DOMAIN req THEN hid[m] ELSE na + 1]
 
+MA(n, k) == [t |-> "a", n |-> n, k |-> k, mem |-> 0]          \* request n bytes: for string k, or (k = 0) for a temporary
+MD(mem)  == [t |-> "d", n |-> 0, k |-> 0, mem |-> mem]        \* release the known buffer mem
+MT(t)    == [t |-> t, n |-> 0, k |-> 0, mem |-> 0]
+Release(k) == IF pre[k].mem = 0 THEN MT("u") ELSE MD(pre[k].mem)   \* string k gives its buffer back
+Forget(k) == [x \in DOMAIN pre \ {k} |-> pre[x]]
+
 GInit == Init /\ h = <<>> /\ done = FALSE /\ hid = <<>> /\ na = 0 /\ sown = {}
-GStep == /\ Len(h) < D /\ UNCHANGED done
-         /\ \/ \E k \in Kinds : /\ Construct(k, {}) /\ Call(IF k = "bare" THEN "new" ELSE "gnew", 0, 0)
-                                /\ UNCHANGED <<hid, na, sown>>
+         /\ np = 0 /\ pre = <<>> /\ fix = FALSE /\ pend = <<>> /\ tmp = 0 /\ hidden = {} /\ nh = 0
+GStep == /\ Len(h) < D /\ pend = <<>> /\ UNCHANGED done
+         /\ \/ /\ "bare" \in Kinds /\ pre = <<>> /\ Construct("bare", {}) /\ Call("new", 0, 0)
+               /\ UNCHANGED <<hid, na, sown>> /\ PreSame
+            \/ \E fx \in FixModes : /\ "global" \in Kinds /\ Construct("global", {}) /\ Call("gnew", fx, 0) /\ fix' = (fx = 1)
+                                   /\ UNCHANGED <<hid, na, sown, np, pre, pend, tmp, hidden, nh>>
+            \/ \E n \in PreSizes : /\ life = "none" /\ "global" \in Kinds /\ Cardinality(DOMAIN pre) < MaxPre
+                                  /\ Call("pnew", np + 1, n) /\ np' = np + 1 /\ pre' = pre @@ ((np + 1) :> [sz |-> n, mem |-> 0])
+                                  /\ UNCHANGED <<vars, hid, na, sown, fix, pend, tmp, hidden, nh>>
+            \/ \E k \in DOMAIN pre : /\ life = "global" /\ Call("pdel", k, 0) /\ pend' = <<Release(k)>> /\ pre' = Forget(k)
+                                     /\ UNCHANGED <<vars, hid, na, sown, np, fix, tmp, hidden, nh>>
+            \/ \E k \in DOMAIN pre, m \in PreSizes :
+                  /\ life = "global" /\ Call("pcat", k, m) /\ pend' = <<MA(pre[k].sz + m, k), Release(k)>>
+                  /\ pre' = [pre EXCEPT ![k].sz = @ + m] /\ UNCHANGED <<vars, hid, na, sown, np, fix, tmp, hidden, nh>>
+            \/ \E k \in DOMAIN pre, n \in PreSizes :
+                  /\ life = "global" /\ Call("pset", k, n) /\ pend' = <<MA(n, 0), Release(k), MA(n, k), MT("dt")>>
+                  /\ pre' = [pre EXCEPT ![k].sz = n] /\ UNCHANGED <<vars, hid, na, sown, np, fix, tmp, hidden, nh>>
             \/ \E n \in Sizes : /\ Room /\ AllocImpl(n) /\ Call("alloc", na + 1, n)
-                                /\ na' = na + 1 /\ Named /\ UNCHANGED sown
+                                /\ na' = na + 1 /\ Named /\ UNCHANGED sown /\ PreSame
             \/ \E n \in Sizes \ {0} : /\ life = "global" /\ Room /\ AllocImpl(n) /\ Call("snew", na + 1, n)
-                                      /\ na' = na + 1 /\ Named /\ sown' = sown \cup {na + 1}
-            \/ \E mem \in DOMAIN req, m \in Sizes : /\ hid[mem] \notin sown /\ Dealloc(mem, m) /\ Call("dealloc", hid[mem], m)
-                                                    /\ hid' = [x \in DOMAIN req' |-> hid[x]] /\ UNCHANGED <<na, sown>>
+                                      /\ na' = na + 1 /\ Named /\ sown' = sown \cup {na + 1} /\ PreSame
+            \/ \E mem \in DOMAIN req, m \in Sizes : /\ hid[mem] \notin sown \cup hidden /\ Dealloc(mem, m) /\ Call("dealloc", hid[mem], m)
+                                                    /\ hid' = [x \in DOMAIN req' |-> hid[x]] /\ UNCHANGED <<na, sown>> /\ PreSame
             \/ \E mem \in DOMAIN req : /\ hid[mem] \in sown /\ Dealloc(mem, req[mem]) /\ Call("sdel", hid[mem], req[mem])
-                                       /\ hid' = [x \in DOMAIN req' |-> hid[x]] /\ UNCHANGED <<na, sown>>
-            \/ \E m \in ForeignSizes : life = "bare" /\ DeallocUnknown /\ Call("foreign", 1, m) /\ UNCHANGED <<hid, na, sown>>
-            \/ life = "bare" /\ Idle # {} /\ ClearCache /\ Call("clearcache", 0, 0) /\ UNCHANGED <<hid, na, sown>>
-            \/ life = "bare" /\ AllBlocks # {} /\ ClearAll /\ Call("clearall", 0, 0) /\ hid' = <<>> /\ UNCHANGED <<na, sown>>
+                                       /\ hid' = [x \in DOMAIN req' |-> hid[x]] /\ UNCHANGED <<na, sown>> /\ PreSame
+            \/ \E m \in ForeignSizes : life = "bare" /\ DeallocUnknown /\ Call("foreign", 1, m) /\ UNCHANGED <<hid, na, sown>> /\ PreSame
+            \/ life = "bare" /\ Idle # {} /\ ClearCache /\ Call("clearcache", 0, 0) /\ UNCHANGED <<hid, na, sown>> /\ PreSame
+            \/ life = "bare" /\ AllBlocks # {} /\ ClearAll /\ Call("clearall", 0, 0) /\ hid' = <<>> /\ UNCHANGED <<na, sown>> /\ PreSame
             \/ /\ Destroy /\ Call(IF life = "bare" THEN "del" ELSE "gdel", 0, 0)
-               /\ hid' = <<>> /\ UNCHANGED <<na, sown>>
+               /\ hid' = <<>> /\ UNCHANGED <<na, sown, np, pend, tmp, nh>> /\ pre' = <<>> /\ fix' = FALSE /\ hidden' = {}
+\* the calls on the cache a script call consists of, one per step (no call is recorded)
+\* (they get negative names so that the numbering of the alloc / snew calls is not disturbed)
+NamedHidden == /\ UNCHANGED na /\ nh' = nh + 1 /\ hidden' = hidden \cup {0 - (nh + 1)}
+               /\ hid' = [m \in DOMAIN req' |-> IF m \in DOMAIN req THEN hid[m] ELSE 0 - (nh + 1)]
+GMicro == /\ pend # <<>> /\ UNCHANGED <<h, done, sown, np, fix>>
+          /\ LET m == pend[1] IN
+             CASE m.t = "a"  -> /\ AllocImpl(m.n) /\ NamedHidden /\ pend' = Tail(pend)
+                                /\ IF m.k = 0 THEN tmp' = last'.mem /\ UNCHANGED pre
+                                              ELSE pre' = [pre EXCEPT ![m.k].mem = last'.mem] /\ UNCHANGED tmp
+               [] m.t = "d"  -> /\ Dealloc(m.mem, req[m.mem]) /\ hid' = [x \in DOMAIN req' |-> hid[x]] /\ pend' = Tail(pend)
+                                /\ UNCHANGED <<na, pre, tmp, hidden, nh>>
+               [] m.t = "dt" -> /\ Dealloc(tmp, req[tmp]) /\ hid' = [x \in DOMAIN req' |-> hid[x]] /\ pend' = Tail(pend)
+                                /\ UNCHANGED <<na, pre, tmp, hidden, nh>>
+               [] m.t = "u"  -> /\ UNCHANGED <<hid, na, pre, tmp, hidden, nh>>
+                                /\ IF warned THEN DeallocUnknown /\ pend' = Tail(pend)
+                                   ELSE WarnBegin /\ pend' = (IF fix THEN <<MT("o"), MT("U")>> ELSE <<>>) \o <<MT("e")>> \o Tail(pend)
+               [] m.t = "o"  -> AllocImpl(OutN) /\ NamedHidden /\ pend' = Tail(pend) /\ UNCHANGED <<pre, tmp>>
+               [] m.t = "U"  -> DeallocUnknown /\ pend' = Tail(pend) /\ UNCHANGED <<hid, na, pre, tmp, hidden, nh>>
+               [] m.t = "e"  -> WarnEnd /\ pend' = Tail(pend) /\ UNCHANGED <<hid, na, pre, tmp, hidden, nh>>
 \* every behaviour ends with everything given back: clearAll of a bare cache, destruction of a global cache
 \* (with whatever is still in use); then the closing step prints it
-GEnd == /\ Len(h) = D /\ ~done /\ done' = TRUE /\ UNCHANGED <<na, sown>>
+GEnd == /\ Len(h) = D /\ pend = <<>> /\ ~done /\ done' = TRUE /\ UNCHANGED <<na, sown, np, pre, fix, pend, tmp, hidden, nh>>
         /\ CASE life = "bare"   -> ClearAll /\ Call("clearall", 0, 0) /\ hid' = <<>>
              [] life = "global" -> Destroy /\ Call("gdel", 0, 0) /\ hid' = <<>>
              [] OTHER           -> UNCHANGED <<vars, h, hid>>
-GNext == GStep \/ GEnd
+GNext == GStep \/ GMicro \/ GEnd
 GSpec == GInit /\ [][GNext]_gvars
 Dump == done => PrintT(<<"BEH", ToJson(h)>>)
 =============================================================================
